@@ -5,7 +5,7 @@ import oracles
 import vrun
 from props import _vfamily
 
-LEVEL = "proof"
+LEVEL = "translation_validation"
 COQ_FILES = ["theories/Model/Validate.v"]
 FACT_GROUPS = ["F6"]
 ALLOWED_AXIOMS = []
